@@ -64,6 +64,7 @@ fn main() {
             stream::report(&t);
         }
         "intr" => h_sock::intr::run_intr(a.seed, a.budget, &dir, a.rest.iter().any(|x| x == "inject")),
+        "origins" => h_sock::origins::run_origins(a.seed, a.budget, &dir),
         "timeouts" => timed::run_timeouts(a.seed, a.budget, &dir),
         "tries" => timed::run_tries(a.seed, a.budget, &dir),
         "edge" => timed::run_edge(&dir),
